@@ -173,7 +173,7 @@ def oracle(case):
             for f in ("loads", "thermostat"):
                 if b[f] is not None and s[f] is None:
                     v.append({"what": f"{case['label']}: space {s['name']!r} lost its {f} link: the {case['def_kind']} it names was "
-                              f"{'renamed' if case['how'] == 'rename' else 'removed'} and the project is still converted, with the link dropped",
+                              f"{ {'rename': 'renamed', 'crossref': 'replaced in a reference by a schedule of another kind'}.get(case['how'], 'removed') } and the project is still converted, with the link dropped",
                               "key": {"class": "broken-reference-accepted", "link": "space." + f}})
                     break
     return v[:4]
